@@ -260,7 +260,7 @@ func (fx *Fx) runLoop(st *State, lp *loopParts) {
 			head.havocHeap(k)
 			nw := head.heap(k, srt)
 			// objects that existed before the loop are not touched by writes to memory the loop allocates
-			head.assume(fmt.Sprintf("(forall ((r!f Int)) (! (=> (<= r!f %s) (= (select %s r!f) (select %s r!f))) :pattern ((select %s r!f))))", head.alloc, nw, old, nw))
+			head.assume(fmt.Sprintf("(forall ((r!f Int)) (! (=> (and (< 0 r!f) (<= r!f %s)) (= (select %s r!f) (select %s r!f))) :pattern ((select %s r!f))))", head.alloc, nw, old, nw))
 		}
 	}
 	if ms.emits || ms.opaque || ms.all {
@@ -346,9 +346,15 @@ func (fx *Fx) runLoop(st *State, lp *loopParts) {
 		}
 		for k, inv := range invs {
 			env := fx.specEnv(back, fx.entry, lp.body.Lbrace+1)
-			phi := fx.specBool(env, inv.Expr)
-			c.oblige(back, "inv-keep", clauseAnchor(tag, inv, k)+sfx, phi, inv.Text, fx.w.pos(lp.node.Pos()))
-			back.assume(phi)
+			parts := splitConj(inv.Expr)
+			for pi, pe := range parts {
+				a := clauseAnchor(tag, inv, k)
+				if len(parts) > 1 {
+					a = fmt.Sprintf("%s.c%d", a, pi+1)
+				}
+				c.oblige(back, "inv-keep", a+sfx, fx.specBool(env, pe), inv.Text, fx.w.pos(lp.node.Pos()))
+			}
+			back.assume(fx.specBool(env, inv.Expr))
 		}
 		for k, it := range iters {
 			parts := splitConj(it.Expr)
